@@ -53,7 +53,9 @@ package metadatapart
 // (srcObject is the closure's local: the source row the copy read.)
 //@ func (*metadataPartStorage).CopyObject$1
 //@ mode effects
-//@ trust nonnil metadatastore.MetadataStore
+//@ trust nonnil metadatastore.MetadataStore.HeadObject
+//@ trust nonnil metadatastore.MetadataStore.HeadObjectVersion
+//@ trust nonnil metadatastore.MetadataStore.PutObject
 //@ effect[C11:copy-replace-metadata] every mbs.metadataStore.PutObject(_, _, $b, $o, _) if specReplaceMetadata(opts)
 //@     where $o != nil && specSameOpt($o.ContentType, opts.ContentType) &&
 //@         (opts.Metadata != nil ==> specSameSystemMetadata($o.Metadata, *opts.Metadata) && same($o.Metadata.UserMetadata, opts.Metadata.UserMetadata)) &&
